@@ -26,9 +26,18 @@ type C09Case struct {
 	Relation  string            `json:"relation"`  // R1 (foreign object absent), R2 (dangling foreign name)
 	BUses     bool              `json:"bUses"`     // namespace b uses the object itself
 	Shards    int               `json:"shards"`
+	// Prior holds earlier contents of the cross-namespace keys: the controller starts with Prior[0]
+	// and the ConfigMap is then updated step by step up to Settings (the permission bits are state
+	// recomputed on every global config parse; only the current ones may count).
+	Prior []map[string]string `json:"prior,omitempty"`
+	// Touch: after the last global change namespace a's referencing object is updated once more
+	// (an unrelated annotation), so it is also parsed by a partial sync.
+	Touch bool `json:"touch,omitempty"`
+	// OwnerFirst: namespace b's own ingress is older than a's (parsed first) or newer.
+	OwnerFirst bool `json:"ownerFirst,omitempty"`
 }
 
-var c09Sites = []string{"auth-tls-secret", "secure-crt-secret", "secure-verify-ca-secret", "auth-secret", "auth-url"}
+var c09Sites = []string{"auth-tls-secret", "secure-crt-secret", "secure-verify-ca-secret", "auth-secret", "auth-url", "tls-secret", "gateway-certref"}
 
 // kind (global key) that opens each site, per the documentation.
 var c09KindOf = map[string]string{
@@ -37,6 +46,8 @@ var c09KindOf = map[string]string{
 	"secure-crt-secret":       "cross-namespace-secrets-crt",
 	"auth-secret":             "cross-namespace-secrets-passwd",
 	"auth-url":                "cross-namespace-services",
+	"tls-secret":              "cross-namespace-secrets-crt",
+	"gateway-certref":         "cross-namespace-secrets-crt",
 }
 
 var c09Keys = []string{"cross-namespace-secrets-ca", "cross-namespace-secrets-crt", "cross-namespace-secrets-passwd", "cross-namespace-services"}
@@ -58,9 +69,22 @@ func genC09(t *rapid.T) C09Case {
 			c.Settings[k] = v
 		}
 	}
-	if c.Site == "auth-url" {
+	if c.Site == "auth-url" || c.Site == "gateway-certref" {
 		c.Form = "plain"
 	}
+	np := rapid.SampledFrom([]int{0, 0, 1, 2}).Draw(t, "nprior")
+	for i := 0; i < np; i++ {
+		m := map[string]string{}
+		for _, k := range c09Keys {
+			v := rapid.SampledFrom([]string{"", "deny", "allow", "allow"}).Draw(t, "prior-"+k)
+			if v != "" {
+				m[k] = v
+			}
+		}
+		c.Prior = append(c.Prior, m)
+	}
+	c.Touch = chanceT(t, "touch", 30)
+	c.OwnerFirst = rapid.Bool().Draw(t, "ownerfirst")
 	if c.Relation == "R1" {
 		c.BUses = false // the foreign object must be otherwise unused to be removable
 	}
@@ -78,14 +102,22 @@ func (c C09Case) allowed() bool {
 // c09World builds the cluster. variant: "ref" (reference to the existing foreign
 // object), "absent" (same reference, object removed), "dangling" (reference to a
 // name that does not exist in b).
-func c09World(c C09Case, variant string) []*world.Obj {
+func c09ConfigMap(settings map[string]string) *world.Obj {
 	cmData := map[string]string{"external-has-lua": "true"}
-	for k, v := range c.Settings {
+	for k, v := range settings {
 		cmData[k] = v
+	}
+	return &world.Obj{Kind: world.KConfigMap, NS: world.CtlNS, Name: "haproxy-ingress", Data: cmData}
+}
+
+func c09World(c C09Case, variant string) []*world.Obj {
+	first := c.Settings
+	if len(c.Prior) > 0 {
+		first = c.Prior[0]
 	}
 	objs := []*world.Obj{
 		{Kind: world.KIngressClass, Name: world.OurClass, Controller: world.ControllerName},
-		{Kind: world.KConfigMap, NS: world.CtlNS, Name: "haproxy-ingress", Data: cmData},
+		c09ConfigMap(first),
 	}
 	for _, ns := range []string{"a", "b"} {
 		for _, svc := range []string{"s1", "s2"} {
@@ -96,6 +128,7 @@ func c09World(c C09Case, variant string) []*world.Obj {
 	}
 	foreignName := map[string]string{
 		"auth-tls-secret": "ca1", "secure-verify-ca-secret": "ca1", "secure-crt-secret": "t1", "auth-secret": "pw", "auth-url": "s2",
+		"tls-secret": "t1", "gateway-certref": "t1",
 	}[c.Site]
 	foreign := map[string]*world.Obj{
 		"ca1": {Kind: world.KSecret, NS: "b", Name: "ca1", SecretKind: "ca", Cert: 1},
@@ -110,7 +143,11 @@ func c09World(c C09Case, variant string) []*world.Obj {
 	}
 	// namespace b's own use of its objects
 	if c.BUses {
-		bi := &world.Obj{Kind: world.KIngress, NS: "b", Name: "ib", ClassName: sp(world.OurClass), Created: 1,
+		created := 3
+		if c.OwnerFirst {
+			created = 1
+		}
+		bi := &world.Obj{Kind: world.KIngress, NS: "b", Name: "ib", ClassName: sp(world.OurClass), Created: created,
 			Ann:   map[string]string{"auth-type": "basic", "auth-secret": "pw", "auth-tls-secret": "ca1"},
 			Rules: []world.Rule{{Host: "hb.local", Paths: []world.Path{{Path: "/", Type: "Prefix", Svc: "s2", Port: "80"}}}},
 			TLS:   []world.TLS{{Hosts: []string{"hb.local"}, Secret: "t1"}}}
@@ -143,6 +180,19 @@ func c09World(c C09Case, variant string) []*world.Obj {
 	ia := &world.Obj{Kind: world.KIngress, NS: "a", Name: "ia", ClassName: sp(world.OurClass), Created: 2,
 		Rules: []world.Rule{{Host: "ha.local", Paths: []world.Path{{Path: "/", Type: "Prefix", Svc: "s1", Port: "80"}}}},
 		TLS:   []world.TLS{{Hosts: []string{"ha.local"}, Secret: ""}}}
+	switch c.Site {
+	case "tls-secret":
+		ia.TLS[0].Secret = ref
+	case "gateway-certref":
+		// a Gateway of namespace a whose https listener names the certificate of namespace b
+		objs = append(objs,
+			&world.Obj{Kind: world.KGatewayClass, Name: "ours", Controller: world.ControllerName},
+			&world.Obj{Kind: world.KGateway, NS: "a", Name: "gw", GW: &world.GatewaySpec{Class: "ours", Listeners: []world.Listener{
+				{Name: "https", Hostname: sp("hg.local"), Port: 443, Protocol: "HTTPS", TLSMode: "Terminate", CertRefs: []string{ref}, From: "Same"}}}},
+			&world.Obj{Kind: world.KHTTPRoute, NS: "a", Name: "rt", Created: 2, RT: &world.RouteSpec{
+				Parents: []world.ParentRef{{Name: "gw"}}, Hostnames: []string{"hg.local"},
+				Rules: []world.RouteRule{{Matches: []world.Match{{Type: "PathPrefix", Value: "/"}}, Backends: []world.BackRef{{Name: "s1", Port: ip(80)}}}}}})
+	}
 	if c.OnService && c.Site != "auth-tls-secret" { // auth-tls is host scoped: ingress only
 		for _, o := range objs {
 			if o.Kind == world.KService && o.NS == "a" && o.Name == "s1" {
@@ -166,9 +216,11 @@ func c09World(c C09Case, variant string) []*world.Obj {
 	return append(objs, ia)
 }
 
+func ip(i int) *int { return &i }
+
 func c09Run(c C09Case, variant string) (*simResult, error) {
 	objs := c09World(c, variant)
-	s, steps, err := freshSim(ctlsim.Params{AllowCrossNS: c.AllowCLI, Shards: c.Shards}, objs)
+	s, steps, err := freshSim(ctlsim.Params{AllowCrossNS: c.AllowCLI, Shards: c.Shards, Gateway: c.Site == "gateway-certref"}, objs)
 	if err != nil {
 		return nil, err
 	}
@@ -176,7 +228,43 @@ func c09Run(c C09Case, variant string) (*simResult, error) {
 	if e := stepErrors(steps); e != nil {
 		return nil, e
 	}
+	// the global ConfigMap reaches the settings under test through its earlier contents
+	if len(c.Prior) > 0 {
+		for _, settings := range append(append([]map[string]string{}, c.Prior[1:]...), c.Settings) {
+			if err := s.Apply([]world.Op{{Op: "update", Obj: c09ConfigMap(settings)}}); err != nil {
+				return nil, err
+			}
+			more := s.Reconcile()
+			if e := stepErrors(more); e != nil {
+				return nil, e
+			}
+			steps = append(steps, more...)
+		}
+	}
+	if c.Touch {
+		for _, o := range s.World.List() {
+			if o.NS == "a" && ((o.Kind == world.KIngress && o.Name == "ia") || (o.Kind == world.KService && o.Name == "s1" && c.OnService)) {
+				n := o.Clone()
+				if n.Ann == nil {
+					n.Ann = map[string]string{}
+				}
+				n.Ann["timeout-server"] = "33s"
+				if err := s.Apply([]world.Op{{Op: "update", Obj: n}}); err != nil {
+					return nil, err
+				}
+				more := s.Reconcile()
+				if e := stepErrors(more); e != nil {
+					return nil, e
+				}
+				steps = append(steps, more...)
+			}
+		}
+	}
 	reqs, snis := requestsFor(objs)
+	if c.Site == "gateway-certref" {
+		reqs = append(reqs, hapcfg.Request{Host: "hg.local", Path: "/", HTTPS: true, SNI: "hg.local"}, hapcfg.Request{Host: "hg.local", Path: "/"})
+		snis = append(snis, "hg.local")
+	}
 	nf, _ := simNF(s, reqs, snis)
 	r := &simResult{nf: nf}
 	for _, d := range []string{"/var/lib/haproxy/crt", "/var/lib/haproxy/cacerts", "/var/lib/haproxy/crl"} {
@@ -214,6 +302,15 @@ func execC09(c C09Case) *Failure {
 	diff := refRes.nf.Diff(othRes.nf)
 	allowed := c.allowed()
 	labels := []string{"site=" + c.Site, "relation=" + c.Relation, fmt.Sprintf("expected-allowed=%v", allowed)}
+	for _, pr := range c.Prior {
+		if strings.ToLower(pr[c09KindOf[c.Site]]) == "allow" && !allowed {
+			labels = append(labels, "allowed-earlier-denied-now")
+			break
+		}
+	}
+	if c.Touch {
+		labels = append(labels, "partial-sync-after")
+	}
 	if c.OnService {
 		labels = append(labels, "on-service")
 	}
@@ -239,8 +336,9 @@ func execC09(c C09Case) *Failure {
 		return failf(sig, "cross-namespace kind %s is denied (settings %v, --allow-cross-namespace=%v), yet the configuration written for namespace a's reference %q (%s) differs between the world where the foreign object exists and the one where it is %s:\n%s",
 			c09KindOf[c.Site], c.Settings, c.AllowCLI, c.Site, c.Form, other, strings.Join(diff, "\n"))
 	}
-	if c.Relation == "R1" {
+	if c.Relation == "R1" && len(c.Prior) == 0 {
 		// the foreign secret must not even be read: reading writes a PEM file
+		// (only when the kind was never allowed: files written while it was allowed stay on disk)
 		before := map[string]bool{}
 		for _, f := range othRes.secretFiles {
 			before[f] = true
